@@ -187,7 +187,16 @@ class StringInterp(AbsInt):
                     continue
                 spec = ""
                 if v.format_spec is not None:
-                    spec = "".join(x.value for x in v.format_spec.values if isinstance(x, ast.Constant))
+                    bits = []
+                    for x in v.format_spec.values:
+                        if isinstance(x, ast.Constant):
+                            bits.append(str(x.value))
+                        elif isinstance(x, ast.FormattedValue) and isinstance(x.value, ast.Name) and x.value.id in getattr(self, "int_locals", {}) \
+                                and x.format_spec is None and x.conversion == -1:
+                            bits.append(str(self.int_locals[x.value.id]))       # `{value:0{width}}` with the width known for this row
+                        else:
+                            raise AnalysisError(f"{self.fi.qualname}: format specification of `{short(v.value)}` is computed at run time")
+                    spec = "".join(bits)
                 if not spec and v.conversion == -1:
                     known = self.strings(v.value, st) if isinstance(v.value, (ast.Name, ast.Attribute)) else None
                     if known is not None and len(known) == 1:
@@ -465,6 +474,10 @@ def emitter_domains(p: Program, fi: FuncInfo) -> dict[str, tuple[str, str]]:
             for v in vals:
                 good = False
                 if isinstance(v, ast.Subscript) and attr_chain(v.value) == ["self", attr] and not isinstance(v.slice, ast.Slice):
+                    good = True
+                # a copy of a local that only ever holds an element itself (`largest = self.step_sizes[-1]` ... `rest_value = largest`)
+                if isinstance(v, ast.Name) and v.id != var and assigns.get(v.id) and all(
+                        isinstance(w, ast.Subscript) and attr_chain(w.value) == ["self", attr] and not isinstance(w.slice, ast.Slice) for w in assigns[v.id]):
                     good = True
                 if isinstance(v, ast.Call) and isinstance(v.func, ast.Name) and v.func.id == "next" and v.args and isinstance(v.args[0], ast.GeneratorExp):
                     g = v.args[0]
